@@ -122,16 +122,28 @@ let rpd toks =
       let v = rp_variant_of var in
       let w = window_of wcfg in
       let b12 = b12 <> "0" in
-      (* two recipient contexts: a leading '2' addresses the second one *)
-      let s = ref rp_init and s2 = ref rp_init in
-      let own = ref 0 in      (* the server's sender sequence number: one for both contexts *)
-      let st x = Printf.sprintf "%s,%s,%s" (hex_of_z x.rp_last) (hex_of_z x.rp_win) (b01 x.rp_initial) in
+      (* the recipient chain (Recipients.rl_step): the configuration adds ids 02 and 03; a
+         leading '2' addresses 03; +<id> / -<id> are management calls *)
+      let id2 = z_of_int 2 and id3 = z_of_int 3 in
+      let chain = ref [] in
+      let step o = let r, c1 = rl_step v w b12 !chain o in chain := c1; r in
+      ignore (step (RlAdd id2)); ignore (step (RlAdd id3));
+      let own = ref 0 in      (* the server's sender sequence number: one for all contexts *)
+      let st id =
+        match rl_find !chain id with
+        | Some x -> Printf.sprintf "%s,%s,%s" (hex_of_z x.rp_last) (hex_of_z x.rp_win) (b01 x.rp_initial)
+        | None -> "-,-,-" in
       let outs = List.map (fun tok ->
+          if tok.[0] = '+' || tok.[0] = '-' then begin
+            let id = z_of_hex (String.sub tok 1 (String.length tok - 1)) in
+            let r = step (if tok.[0] = '+' then RlAdd id else RlDel id) in
+            let ret = match r with RlRet true -> "1" | RlRet false -> "0" | RlVerdict _ -> "?" in
+            Printf.sprintf "%s,%s/%s" ret (st id2) (st id3)
+          end else begin
           let second = tok.[0] = '2' in
           let tok' = if second then String.sub tok 1 (String.length tok - 1) else tok in
-          let cur = if second then s2 else s in
-          let r, s1 = rp_recv v w b12 !cur (rp_msg_of tok') in
-          cur := s1;
+          let r = match step (RlDeliver ((if second then id3 else id2), rp_msg_of tok')) with
+            | RlVerdict r -> r | RlRet _ -> failwith "deliver" in
           let letter = if tok'.[0] = 'A' then (if r = RpAccept then "A" else "*") else verdict_letter r in
           (* which nonce protects the reply (Replay.rp_reply_own_piv, the code's choice) *)
           let tag =
@@ -140,7 +152,7 @@ let rpd toks =
               | Some true -> let t = Printf.sprintf "~o%x" !own in incr own; t
               | Some false -> "~r"
               | None -> "" in
-          Printf.sprintf "%s,%s/%s%s" letter (st !s) (st !s2) tag) msgs in
+          Printf.sprintf "%s,%s/%s%s" letter (st id2) (st id3) tag end) msgs in
       if outs = [] then "-" else String.concat " " outs
   | _ -> failwith "rpd args"
 
